@@ -3,12 +3,12 @@ CONSTANTS
   MaxInv = 9
   TxU <- TxUDef
   Lists <- ListsC09
-  CbModes = {"zero", "max"}
+  CbModes = {"zero"}
   Dts = {1}
   H0 = 101
   BaseDt = 1
   BaseCoins <- BaseDef
 INIT InitObs
 NEXT Stutter
-INVARIANTS ObsChainValid ObsUtxoIsReplay ObsNoInflation ObsNoFailedInChain ObsTipExact
+INVARIANTS ObsChainValid ObsUtxoIsReplay ObsNoInflation ObsNoFailedInChain ObsTipMostWork ObsTipExact
 CHECK_DEADLOCK FALSE
